@@ -272,6 +272,9 @@ def check_table(m, phase, fe, cfg, report):
                    "tabulated point T=%.10g fields=%s is %.3g (Newton step) away from a "
                    "critical point, tolerance %.3g" % (Ti, x.tolist(), step, tolx),
                    dict(T=float(Ti), x=x.tolist()))
+        elif dist > 2 * tolx + step and min(abs(Ti - ph.Tlo), abs(Ti - ph.Thi)) < 3 * slack:
+            # a genuine minimum of another phase right at the spinodal: same event as a hop
+            beyond_min.append((float(Ti), x.tolist(), emin))
         elif dist > 2 * tolx + step:
             report("wrong-branch",
                    "tabulated point T=%.10g fields=%s is a critical point but not the traced "
@@ -359,6 +362,10 @@ def check_table(m, phase, fe, cfg, report):
             k = min(max(k, 1), len(T) - 1)
             pts.append((Tend, T[k] - T[k - 1]))
         fV = lambda t: m.V(ph.loc(t), t)
+        # two abscissae a few ulp apart (RK45's last micro-step onto t_bound) make the spline
+        # oscillate near that end: its own failure class
+        dup = bool(np.any(np.diff(T) < 1e-12 * Ts))
+        ikey = "duplicate-node-degrades-interpolation" if dup else "interpolation-error"
         for Tm, h in pts:
             if not (ph.Tlo < Tm < ph.Thi):
                 continue
@@ -383,7 +390,7 @@ def check_table(m, phase, fe, cfg, report):
                           if m.nf == 2 else math.inf))
             worst["interp"] = max(worst.get("interp", 0.0), d / tolx)
             if d > tolx:
-                report("interpolation-error",
+                report(ikey,
                        "interpolated fields at T=%.10g are %s, closed form %s: error %.3g > "
                        "%.3g" % (Tm, x.tolist(), exact.tolist(), d, tolx), dict(T=float(Tm)))
             vex = m.V(exact, Tm)
@@ -392,9 +399,11 @@ def check_table(m, phase, fe, cfg, report):
                 + 4 * (5 / 384) * hn ** 4 * d4v
             worst["interpv"] = max(worst.get("interpv", 0.0), abs(v - vex) / tolv)
             if abs(v - vex) > tolv:
-                report("interpolation-error-veff",
+                report(ikey if dup else "interpolation-error-veff",
                        "interpolated free energy at T=%.10g is %.15g, closed form %.15g "
-                       "(tolerance %.3g)" % (Tm, v, vex, tolv), dict(T=float(Tm)))
+                       "(tolerance %.3g)%s" % (Tm, v, vex, tolv, "; the table has two nodes "
+                                               "%.3g apart" % float(np.min(np.diff(T)))
+                                               if dup else ""), dict(T=float(Tm)))
         # outside the reported range the object must refuse
         for Tout in (mn[0] - 3 * dT, mx[0] + 3 * dT):
             n += 1
@@ -435,7 +444,7 @@ class time_limit:
         return False
 
 
-LIMIT = 60.0
+LIMIT = 20.0
 
 
 def _d4(f, t, h):
@@ -443,11 +452,7 @@ def _d4(f, t, h):
     return (f(t - 2 * h) - 4 * f(t - h) + 6 * f(t) - 4 * f(t + h) + f(t + 2 * h)) / h ** 4
 
 
-def run_trace_case(ctx, cfg, tag):
-    """cfg: model description + phase, Tstart, TMin, TMax, dT, rTol, paranoid"""
-    m = build_model(cfg["model"])
-    fails = []
-
+def make_reporter(fails):
     def report(key, what, extra):
         fails.append((key, what, extra))
 
@@ -456,6 +461,14 @@ def run_trace_case(ctx, cfg, tag):
             f[0] in ("wrong-branch", "gradient-not-zero") and "T" in f[2] and
             (abs(f[2]["T"] - lo) < w or abs(f[2]["T"] - hi) < w))]
     report.drop_near = drop_near
+    return report
+
+
+def run_trace_case(ctx, cfg, tag):
+    """cfg: model description + phase, Tstart, TMin, TMax, dT, rTol, paranoid"""
+    m = build_model(cfg["model"])
+    fails = []
+    report = make_reporter(fails)
     try:
         with time_limit(LIMIT):
             fe = trace(m, cfg["phase"], cfg["Tstart"], cfg["TMin"], cfg["TMax"], cfg["dT"],
@@ -590,19 +603,29 @@ def run_tc_case(ctx, cfg):
     m = build_model(cfg["model"])
     low, high = m.phases[m.low], m.phases[m.high]
     fails = []
-
-    def report(key, what, extra):
-        fails.append((key, what, extra))
-    report.drop_near = lambda lo, hi, w: None
+    report = make_reporter(fails)
     th = Thermodynamics(m.pot, cfg["Tn"], Fields(low.loc(cfg["Tn"])),
                         Fields(high.loc(cfg["Tn"])))
     for fe in (th.freeEnergyHigh, th.freeEnergyLow):
         fe.minPossibleTemperature[0] = cfg["Wmin"]
         fe.maxPossibleTemperature[0] = cfg["Wmax"]
     Tc = None
+    import scipy.optimize
+    orig = scipy.optimize.root_scalar
+    seen_br = []
+
+    def spy(f, *a, **k):
+        if "bracket" in k:
+            lo, hi = k["bracket"]
+            seen_br.append((float(lo), float(hi), float(f(lo)), float(f(hi))))
+        return orig(f, *a, **k)
+    scipy.optimize.root_scalar = spy
     try:
         with time_limit(2 * LIMIT):
-            Tc = th.findCriticalTemperature(cfg["dT"], cfg["rTol"], cfg["paranoid"])
+            try:
+                Tc = th.findCriticalTemperature(cfg["dT"], cfg["rTol"], cfg["paranoid"])
+            finally:
+                scipy.optimize.root_scalar = orig
     except CaseTimeout:
         report("trace-does-not-terminate", "findCriticalTemperature did not return within "
                "%g s" % (2 * LIMIT), {})
@@ -613,6 +636,18 @@ def run_tc_case(ctx, cfg):
         report("tc-raises", "findCriticalTemperature raised %r" % ex, {})
     except Exception as ex:
         report("tc-raises", "findCriticalTemperature raised %r" % ex, {})
+    for lo, hi, flo, fhi in seen_br:
+        # conclusion of theorem tc_bracket_has_sign_change on the running code
+        ctx.count("direct_tc_bracket")
+        cmin = max(th.freeEnergyHigh.minPossibleTemperature[0],
+                   th.freeEnergyLow.minPossibleTemperature[0])
+        cmax = min(th.freeEnergyHigh.maxPossibleTemperature[0],
+                   th.freeEnergyLow.maxPossibleTemperature[0])
+        if not (np.sign(flo) != np.sign(fhi) and cmin < lo and hi <= cmax * (1 + 1e-12)
+                and abs((hi - lo) - cfg["dT"]) <= 1e-9 * m.Tscale):
+            report("tc-bracket", "bracket (%.12g, %.12g) given to brentq: f=%.6g, %.6g, "
+                   "coexistence range (%.12g, %.12g), step %.6g" % (lo, hi, flo, fhi, cmin, cmax,
+                                                                  cfg["dT"]), {})
     hopped = False
     for name, fe in ((m.high, th.freeEnergyHigh), (m.low, th.freeEnergyLow)):
         if not fe.hasInterpolation():
@@ -694,6 +729,114 @@ def oracle_file(rng, count):
     return hdr + "\n".join(goals) + "\n", rows
 
 
+BIG = Fraction(10) ** 40          # stands for np.inf in min(self.maxPossibleTemperature[0], TMax)
+
+
+def book_goal(k, T, dT, TMinReq, TMaxReq, prior, after):
+    """Coq goal: the GENERATED clamp/tail model, evaluated on the table the implementation
+    produced, gives exactly the range and flags the implementation reports."""
+    L = [Fraction(float(t)) for t in T]
+    M, N = min(L), max(L)
+    q = pyrx.rlit
+    a0 = Fraction(prior[0][0])
+    b0 = BIG if math.isinf(prior[1][0]) else Fraction(prior[1][0])
+    st0 = "(mk_ranges %s %s %s %s)" % (q(a0), str(prior[0][1]).lower(), q(b0),
+                                      str(prior[1][1]).lower())
+    want_min, want_max = M + 2 * Fraction(dT), N - 2 * Fraction(dT)
+    lst = "[" + "; ".join(q(x) for x in L) + "]"
+    cm = "(clamp_TMin %s %s)" % (st0, q(Fraction(TMinReq)))
+    cM = "(clamp_TMax %s %s)" % (st0, q(Fraction(TMaxReq)))
+    goal = """Definition L%(k)d : list R := %(lst)s.
+Goal let st' := tail L%(k)d %(dT)s %(cm)s %(cM)s %(st0)s in
+  minT st' = %(wmin)s /\\ maxT st' = %(wmax)s /\\ minFlag st' = %(fa)s /\\ maxFlag st' = %(fb)s.
+Proof.
+  intros st'.
+  assert (Lm : lmin L%(k)d = %(M)s).
+  { apply lmin_is; [unfold L%(k)d; repeat (first [left; reflexivity|right])
+                   |unfold L%(k)d; repeat constructor; lra]. }
+  assert (LM : lmax L%(k)d = %(N)s).
+  { apply lmax_is; [unfold L%(k)d; repeat (first [left; reflexivity|right])
+                   |unfold L%(k)d; repeat constructor; lra]. }
+  destruct (tail_values L%(k)d %(dT)s %(cm)s %(cM)s %(st0)s) as [A [B [C D]]].
+  fold st' in A, B, C, D. rewrite A, B, C, D, Lm, LM.
+  unfold clamp_TMin, clamp_TMax. cbn [minT maxT minFlag maxFlag orb].
+  repeat split; try lra.
+  all: first [reflexivity
+             |unfold Rmax, Rmin;
+              repeat match goal with |- context [Rle_dec ?x ?y] => destruct (Rle_dec x y) end;
+              first [apply Rltb_true; lra|apply Rltb_false; lra]].
+Qed.
+"""
+    cmin = max(a0, Fraction(TMinReq))
+    cmax = min(b0, Fraction(TMaxReq))
+    fa = bool(prior[0][1]) or (cmin < M)
+    fb = bool(prior[1][1]) or (N < cmax)
+
+    def flagproof(is_true, prior_flag, lemma_t, lemma_f):
+        if prior_flag:
+            return "reflexivity."
+        pre = "unfold Rmax, Rmin; repeat match goal with |- context [Rle_dec ?x ?y] => " \
+              "destruct (Rle_dec x y) end; "
+        return pre + ("apply %s; lra." % (lemma_t if is_true else lemma_f))
+    return goal % dict(
+        k=k, lst=lst, dT=q(Fraction(dT)), cm=cm, cM=cM, st0=st0, wmin=q(want_min),
+        wmax=q(want_max), fa=str(bool(after[0][1])).lower(), fb=str(bool(after[1][1])).lower(),
+        M=q(M), N=q(N),
+        pa=flagproof(bool(after[0][1]), bool(prior[0][1]), "Rltb_true", "Rltb_false"),
+        pb=flagproof(bool(after[1][1]), bool(prior[1][1]), "Rltb_true", "Rltb_false")), \
+        (float(want_min), float(want_max), fa, fb)
+
+
+def book_file(ctx, rng, count):
+    """real traces (short tables) -> one Coq file; also a second call on the same object
+    (history: the clamps use the previous range, flags are never cleared)"""
+    from WallGo import Fields
+    from WallGo.freeEnergy import FreeEnergy
+    goals, k = [], 0
+    tries = 0
+    while k < count and tries < 10 * count:
+        tries += 1
+        cfg = (q1_cfgs if rng.random() < 0.5 else tf_cfgs)(rng, 1)[0]
+        m = build_model(cfg["model"])
+        cfg["dT"] = 0.03 * m.Tscale
+        ph = m.phases[cfg["phase"]]
+        fe = FreeEnergy(m.pot, cfg["Tstart"], Fields(ph.loc(cfg["Tstart"])))
+        calls = [(cfg["TMin"], cfg["TMax"])]
+        if rng.random() < 0.5:      # second call with a wider request on the traced object
+            calls.append((cfg["TMin"] - 0.1 * m.Tscale, cfg["TMax"] + 0.1 * m.Tscale))
+        for TMinReq, TMaxReq in calls:
+            prior = ([float(fe.minPossibleTemperature[0]), bool(fe.minPossibleTemperature[1])],
+                     [float(fe.maxPossibleTemperature[0]), bool(fe.maxPossibleTemperature[1])])
+            try:
+                with time_limit(LIMIT):
+                    fe.tracePhase(TMinReq, TMaxReq, cfg["dT"], rTol=cfg["rTol"],
+                                  paranoid=cfg["paranoid"])
+            except Exception:
+                break
+            T = np.asarray(fe._interpolationPoints, dtype=float)
+            if len(T) > 90:
+                break
+            after = ([float(fe.minPossibleTemperature[0]), bool(fe.minPossibleTemperature[1])],
+                     [float(fe.maxPossibleTemperature[0]), bool(fe.maxPossibleTemperature[1])])
+            g, (wmin, wmax, fa, fb) = book_goal(k, T, cfg["dT"], TMinReq, TMaxReq, prior, after)
+            ctx.count("bookkeeping_model_vs_impl", dict(cfg=cfg, req=[TMinReq, TMaxReq]),
+                      bucket="call%d/flags=%s%s" % (len(goals) and calls.index(
+                          (TMinReq, TMaxReq)), int(after[0][1]), int(after[1][1])))
+            # the floating-point side: the reported numbers are the model's up to rounding
+            if abs(after[0][0] - wmin) > 1e-12 * abs(wmin) or \
+                    abs(after[1][0] - wmax) > 1e-12 * abs(wmax):
+                ctx.fail_input("reported range [%r, %r] differs from table -/+ 2 dT = [%r, %r]"
+                               % (after[0][0], after[1][0], wmin, wmax),
+                               dict(kind="trace", cfg=cfg), key="margin")
+            goals.append(g)
+            k += 1
+    hdr = ("From Coq Require Import Reals Lra List Bool.\n"
+           "From WG Require Import Lib.PhaseTrace Model.TraceBook.\n"
+           "From GenC11 Require Import TraceGen Props_C11.\nImport ListNotations.\n"
+           "Local Open Scope R_scope.\n")
+    return hdr + "\n".join(goals)
+
+
 # =====================================================================================
 
 def run(ctx):
@@ -721,6 +864,17 @@ def run(ctx):
     p = ctx.write("Cases/Oracle.v", text)
     pr = subprocess.Popen(["timeout", "600", "coqc"] + ctx.coq_args() + [p], cwd=ctx.bdir,
                           stdout=subprocess.PIPE, stderr=subprocess.PIPE, text=True)
+    # --- the generated range/flag bookkeeping agrees with what the implementation reports
+    pb = None
+    if proved:
+        try:
+            pbf = ctx.write("Cases/Book.v", book_file(ctx, rng, ctx.n(4, 30)))
+            pb = subprocess.Popen(["timeout", "900", "coqc"] + ctx.coq_args() + [pbf],
+                                  cwd=ctx.bdir, stdout=subprocess.PIPE,
+                                  stderr=subprocess.PIPE, text=True)
+        except Exception as ex:
+            ctx.log("bookkeeping correspondence raised", traceback.format_exc())
+            ctx.broken.append("harness: bookkeeping correspondence raised %r" % ex)
     # --- direct validation on the real tracer -------------------------------------------
     units = (1.0, 1e-3, 1e3)
     for k in ctx.known.get("findings", []):
@@ -754,6 +908,12 @@ def run(ctx):
         ctx.broken.append("correspondence: closed forms proved in Lib.PhaseTrace differ from "
                           "tools/wgmodels.py / the traced potential")
         ctx.log("certified oracle evaluation failed", vlib.tail(err, 8))
+    if pb is not None:
+        out, err = pb.communicate()
+        if pb.returncode != 0:
+            ctx.broken.append("correspondence: generated clamp/tail model disagrees with the "
+                              "range/flags reported by tracePhase")
+            ctx.log("bookkeeping correspondence failed", vlib.tail(err, 8))
     ctx.cov["rule"] = (
         "trace cases: random one-field quartic (D,E,lam,T0 from small sets) and rotated "
         "two-field Z2xZ2 models (5 rotation angles) in 3 unit systems; phase, start "
